@@ -1056,7 +1056,7 @@ Section WStep.
     end.
   Proof.
     intros H Hy. pose proof (WN_of _ H Hy) as Hn.
-    destruct o as [t|t|td ts|td ts|t|t|t|s rk body refs|s rk|sn so|sn so|sd ss|sd ss|s arg catch|s b|s|s|s|g k|gn go|gn go|gd gs|gd gs|g|g s c front mv|g arg catch|g|g b|g|s g|c|cn co|cd cs|c|c b|c|c|k c|k|k c|kn ko|kd ks|k1 k2|k c|k|k b|k|k| | ]; try exact I; cbn [step].
+    destruct o as [t|t|td ts|td ts|t|t|t|s rk body refs|s rk|sn so|sn so|sd ss|sd ss|s arg catch|s b|s|s|s|g k|gn go|gn go|gd gs|gd gs|g|g|g|g s c front mv|g arg catch|g|g b|g|s g|c|cn co|cd cs|c|c b|c|c|k c|k|k c|kn ko|kd ks|k1 k2|k c|k|k b|k|k| | ]; try exact I; cbn [step].
     - destruct (fresh_track t st && N.ltb t 1000); [|apply skip_w; exact Hy].
       cbn [out_w]. eapply W_keep; [|exact Hy]. repeat split.
     - destruct (live_track t st); [|apply skip_w; exact Hy].
@@ -1088,7 +1088,7 @@ Section WStep.
     end.
   Proof.
     intros H Hy. pose proof (wf_c _ H) as Hc. pose proof (WN_of _ H Hy) as Hn.
-    destruct o as [t|t|td ts|td ts|t|t|t|s rk body refs|s rk|sn so|sn so|sd ss|sd ss|s arg catch|s b|s|s|s|g k|gn go|gn go|gd gs|gd gs|g|g s c front mv|g arg catch|g|g b|g|s g|c|cn co|cd cs|c|c b|c|c|k c|k|k c|kn ko|kd ks|k1 k2|k c|k|k b|k|k| | ]; try exact I; cbn [step].
+    destruct o as [t|t|td ts|td ts|t|t|t|s rk body refs|s rk|sn so|sn so|sd ss|sd ss|s arg catch|s b|s|s|s|g k|gn go|gn go|gd gs|gd gs|g|g|g|g s c front mv|g arg catch|g|g b|g|s g|c|cn co|cd cs|c|c b|c|c|k c|k|k c|kn ko|kd ks|k1 k2|k c|k|k b|k|k| | ]; try exact I; cbn [step].
     - (* OSNew *)
       destruct (fresh_slot s st && _ && _); [|apply skip_w; exact Hy].
       destruct (bind_all (next_rid st) refs (with_next_rid (next_rid st + 1) st)) as [st2|] eqn:E; [|exact I].
@@ -1155,13 +1155,13 @@ Section WStep.
 
   Lemma step_sig_w o st : WF st -> W st ->
     match o with
-    | OGNew _ _ | OGCopy _ _ | OGMove _ _ | OGAssign _ _ | OGMoveAssign _ _ | OGDel _
+    | OGNew _ _ | OGCopy _ _ | OGMove _ _ | OGAssign _ _ | OGMoveAssign _ _ | OGShare _ | OGRelease _ | OGDel _
     | OGEmit _ _ _ | OGClear _ | OGBlock _ _ | OGQuery _ | OGMakeSlot _ _ => out_w (step prog rec o st)
     | _ => True
     end.
   Proof.
     intros H Hy. pose proof (WN_of _ H Hy) as Hn.
-    destruct o as [t|t|td ts|td ts|t|t|t|s rk body refs|s rk|sn so|sn so|sd ss|sd ss|s arg catch|s b|s|s|s|g k|gn go|gn go|gd gs|gd gs|g|g s c front mv|g arg catch|g|g b|g|s g|c|cn co|cd cs|c|c b|c|c|k c|k|k c|kn ko|kd ks|k1 k2|k c|k|k b|k|k| | ]; try exact I; cbn [step].
+    destruct o as [t|t|td ts|td ts|t|t|t|s rk body refs|s rk|sn so|sn so|sd ss|sd ss|s arg catch|s b|s|s|s|g k|gn go|gn go|gd gs|gd gs|g|g|g|g s c front mv|g arg catch|g|g b|g|s g|c|cn co|cd cs|c|c b|c|c|k c|k|k c|kn ko|kd ks|k1 k2|k c|k|k b|k|k| | ]; try exact I; cbn [step].
     - (* OGNew *)
       destruct (fresh_sig g st && _); [|apply skip_w; exact Hy].
       cbn [out_w]. destruct (gk_track k); (eapply W_keep; [|exact Hy]; repeat split).
@@ -1209,8 +1209,17 @@ Section WStep.
       destruct (gk_track (g_kind src) && _).
       + apply liftu_w. intros st' E. exact (proj1 (track_notify_w _ _ _ H2 E)).
       + exact (proj1 H2).
+    - (* OGShare *)
+      destruct (live_sig g st) as [go|]; [|apply skip_w; exact Hy].
+      destruct (negb (is_shared (sig_key g) st) && N.ltb g 1000); [|apply skip_w; exact Hy].
+      cbn [out_w]. eapply W_keep; [|exact Hy]. repeat split.
+    - (* OGRelease *)
+      destruct (live_sig g st) as [go|]; [|apply skip_w; exact Hy].
+      destruct (is_shared (sig_key g) st && negb (is_released (sig_key g) st)); [|apply skip_w; exact Hy].
+      cbn [out_w]. eapply W_keep; [|exact Hy]. repeat split.
     - (* OGDel *)
       destruct (live_sig g st) as [go|]; [|apply skip_w; exact Hy].
+      destruct (negb (is_shared (sig_key g) st)); [|apply skip_w; exact Hy].
       apply liftu_w. intros st' E. exact (proj1 (sig_destroy_w _ _ _ _ Hn E)).
     - (* OGEmit *)
       destruct (live_sig g st) as [go|]; [|apply skip_w; exact Hy].
@@ -1246,7 +1255,7 @@ Section WStep.
     end.
   Proof.
     intros H Hy. pose proof (WN_of _ H Hy) as Hn.
-    destruct o as [t|t|td ts|td ts|t|t|t|s rk body refs|s rk|sn so|sn so|sd ss|sd ss|s arg catch|s b|s|s|s|g k|gn go|gn go|gd gs|gd gs|g|g s c front mv|g arg catch|g|g b|g|s g|c|cn co|cd cs|c|c b|c|c|k c|k|k c|kn ko|kd ks|k1 k2|k c|k|k b|k|k| | ]; try exact I; cbn [step].
+    destruct o as [t|t|td ts|td ts|t|t|t|s rk body refs|s rk|sn so|sn so|sd ss|sd ss|s arg catch|s b|s|s|s|g k|gn go|gn go|gd gs|gd gs|g|g|g|g s c front mv|g arg catch|g|g b|g|s g|c|cn co|cd cs|c|c b|c|c|k c|k|k c|kn ko|kd ks|k1 k2|k c|k|k b|k|k| | ]; try exact I; cbn [step].
     - (* OCEmpty *)
       destruct (fresh_conn c st) eqn:Hf; [|apply skip_w; exact Hy]. cbn [out_w].
       apply set_connptr_W; [exact Hy|]. apply W_unreg_null; [exact Hy|]. apply none_not_some. apply fresh_conn_ptr. exact Hf.
@@ -1371,8 +1380,12 @@ Section WStep.
     induction fuel as [|fuel IH]; intros st st' Hn; cbn [gc].
     - destruct (find_orphan prog (shared st) st); [discriminate|]. intro E. inversion E; subst. exact Hn.
     - destruct (find_orphan prog (shared st) st) as [t|]; [|intro E; inversion E; subst; exact Hn].
-      destruct (track_notify t st) as [st1|] eqn:E1; cbn [rbind]; [|discriminate].
-      apply IH. eapply WN_keep; [|exact (track_notify_w _ _ _ Hn E1)]. repeat split.
+      destruct (N.leb 2000 t).
+      + destruct (live_sig (t - 2000) st) as [go|]; [|discriminate].
+        destruct (sig_destroy (t - 2000) go st) as [st1|] eqn:E1; cbn [rbind]; [|discriminate].
+        apply IH. exact (sig_destroy_w _ _ _ _ Hn E1).
+      + destruct (track_notify t st) as [st1|] eqn:E1; cbn [rbind]; [|discriminate].
+        apply IH. eapply WN_keep; [|exact (track_notify_w _ _ _ Hn E1)]. repeat split.
   Qed.
 
   Lemma gc_shared_w st st' : WF st -> W st -> gc_shared prog st = Ok st' -> W st'.
